@@ -108,7 +108,7 @@ func (p *Prog) outerAP(v ssa.Value, fr *frame, depth int) AP {
 	if depth > 48 || v == nil {
 		return AP{Root: v}
 	}
-	v = strip(v, false)
+	v = strip(v, true)
 	switch x := v.(type) {
 	case *ssa.Parameter, *ssa.FreeVar:
 		if fr != nil {
@@ -117,6 +117,10 @@ func (p *Prog) outerAP(v ssa.Value, fr *frame, depth int) AP {
 			}
 		}
 		return AP{Root: v}
+	case *ssa.Convert:
+		if isNumeric(x.Type()) && isNumeric(x.X.Type()) {
+			return p.outerAP(x.X, fr, depth+1) // where a value comes from, not what it is worth
+		}
 	case *ssa.FieldAddr:
 		if val, vfr, ok := p.carriedField(x.X, x.Field, fr, depth+1); ok {
 			return p.outerAP(val, vfr, depth+1)
@@ -262,4 +266,21 @@ func (p *Prog) creationFrames(f *ssa.Function) []*frame {
 		}
 	}
 	return out
+}
+
+// SourceField: the struct field a value was read from, looking through locals, conversions and - inside a closure or a
+// method value - the variables captured where it was created.
+func (p *Prog) SourceField(f *ssa.Function, v ssa.Value) (FieldRef, bool) {
+	var fr *frame
+	if frs := p.creationFrames(f); len(frs) == 1 {
+		fr = frs[0]
+	}
+	ap := p.OuterAP(v, fr)
+	if len(ap.Fields) > 0 {
+		return ap.Fields[len(ap.Fields)-1], true
+	}
+	if fr, _, ok := loadedField(strip(v, true)); ok {
+		return fr, true
+	}
+	return FieldRef{}, false
 }
